@@ -25,7 +25,9 @@ SCALE = 1 << 60
 COORD_RTOL = 1e-9        # relative to the extent of canvas / image
 WSUM_RTOL = 1e-6         # weight maps are float32
 W_ATOL = 5e-6            # one float32 weight-map entry (values are O(1))
-KNOT_ATOL = 1e-7         # "the knots do not move" (pixels)
+KNOT_ATOL = 1e-4         # "the knots do not move" (pixels): the parabolic refinement of a float32
+                         # correlation surface returns O(1e-6) px on identical images (rounding, broad KDE
+                         # peaks); 1e-4 px is 150x below the finest upsampled pixel (1/64) the property names
 C13_KEY = "fixed-point-via-C13-dft-upsample"
 
 PRE = """From QV.lib Require Import Prelude.
